@@ -6,5 +6,6 @@ from contracts.bounded_upd import run_bounded
 def run(run):
     run.assume("S-REAL", "S-PY", "S-NUMPY", "A-LSODA", "A-EIG")
     UF.c05_facets(run)
+    UF.callee_frames(run)
     run.note("lemma (cited): y'(s) = k f(k s, y) on [t0/k, t1/k] has the solution y(k s); with the proved homogeneity of the right-hand side and the proved covariance of the solver set-up this is the time-rescaled problem")
     run_bounded(run, ["C05"], "paired runs with k in {1e-15, 1e-9, 1e-4, 1e3}", UF.FN)
